@@ -127,6 +127,8 @@ func runWorldA(rc *RunCtx, prop string) *RunResult {
 	w.now = ledgerBase + uint64(T.Draw(50, "cfg.t0"))
 
 	// protocol versions: one or two; the second starts somewhere inside the run
+	maxDelta := uint(3000 + T.Draw(2000, "cfg.maxdelta"))
+
 	mk := func(genesis uint64, timeDelta uint64) *simenv.Version {
 		p := simenv.DefaultProtocol(genesis)
 		p.MultihashAlgorithms = []uint{w.hash}
@@ -136,7 +138,7 @@ func runWorldA(rc *RunCtx, prop string) *RunResult {
 
 		p.MaxOperationTimeDelta = timeDelta
 		p.MaxOperationSize = 20000
-		p.MaxDeltaSize = uint(3000 + T.Draw(2000, "cfg.maxdelta"))
+		p.MaxDeltaSize = maxDelta // the same in every version of a run: a replayed operation keeps its delta class
 		p.MaxOperationCount = uint(1 + T.Draw(50, "cfg.maxops"))
 
 		return simenv.NewVersion(p, &simenv.VersionDeps{})
@@ -967,7 +969,17 @@ func (w *aWorld) anchorReplay() {
 	w.stampNoAdvance(&m)
 	w.nontrivial = true
 	w.k.Count("probe:replayed-operation")
-	w.anchor(src.A.OperationRequest, &m, false, "replay")
+
+	// a replayed operation is authorised exactly when it (still) reveals the commitment in force: e.g. a
+	// deactivate that was ignored because it was anchored before its window opens may be anchored again
+	st, _ := refmodel.Resolve(w.modelOps())
+	legit := m.Authentic && m.RevealCommit != "" && w.legitNow(st, operation.Type(m.Type), w.byCommit[m.RevealCommit])
+
+	if legit {
+		w.k.Count("probe:replay-still-authorised")
+	}
+
+	w.anchor(src.A.OperationRequest, &m, legit, "replay")
 }
 
 // anchorUnauthorised: an adversary anchors an operation that does not reveal the committed key
